@@ -26,7 +26,13 @@ import prop_C05
 
 ID = "C08"
 COQ_PROP = "C08"
-FAMILIES = [(fam_defaults, 2000, 40000), (fam_docemit, 800, 10000), (fam_docparse, 1000, 15000)]
+import fam_docparseng  # noqa: E402  (the fixed point is reached by every kind's own emitter and parser)
+import fam_emitast  # noqa: E402
+import fam_parseast  # noqa: E402
+import fam_parsesig  # noqa: E402
+
+FAMILIES = [(fam_defaults, 1500, 40000), (fam_docemit, 800, 10000), (fam_docparse, 1000, 15000), (fam_docparseng, 800, 10000),
+            (fam_emitast, 1000, 12000), (fam_parseast, 1000, 12000), (fam_parsesig, 800, 10000)]
 TECHNIQUE = ("Coq proof of the local idempotence lemmas (quote, unquote, set_default_doc, to_docstring text a function of the "
              "interface fields, the options and indent_level only) and of the fixed-point theorem from round-trip laws (second and "
              "third emission equal by rewriting), instantiated for the ReST docstring kind from the C01 ReST theorem; the "
